@@ -454,6 +454,38 @@ pub fn run_sched(case: &Case) -> Out {
         }
     }
 
+    // block_on: the same for its loop head. "None exactly when stop() was requested first": once stop() has returned, a
+    // loop thread that evaluates its condition afterwards must leave (None) - it must not swap/poll the future again (which
+    // could turn a completion that came after the stop request into Some) nor wait again. The condition is evaluated
+    // after the grant that precedes the arrival at BO_SWAP_PRE.
+    if mode == Mode::BlockOn {
+        let stop_posts: Vec<u64> = log.iter().filter(|l| l.site == Site::SIG_STOP_POST as u32).map(|l| l.tick).collect();
+        let mut last_grant: Option<u64> = None;
+        for l in log.iter().filter(|l| l.thread == loop_idx) {
+            if l.site == sched::SITE_GRANT {
+                last_grant = Some(l.tick);
+            } else if l.site == Site::BO_SWAP_PRE as u32 {
+                if let Some(g) = last_grant {
+                    if let Some(sp) = stop_posts.iter().find(|sp| **sp < g) {
+                        out.classes.push("block_on_continued_after_stop");
+                        out.viol = Some(
+                            Violation::new(
+                                "C11.stop",
+                                format!(
+                                    "block_on: stop() had returned (tick {sp}) before the loop thread evaluated its loop condition (granted at tick {g}), yet it went on (BO_SWAP_PRE at tick {}) instead of returning None; result: {:?}",
+                                    l.tick,
+                                    loop_result.lock().unwrap()
+                                ),
+                            )
+                            .with_sig("C11.stop/block_on-continued-after-stop"),
+                        );
+                        return out;
+                    }
+                }
+            }
+        }
+    }
+
     // evidence: signal site inside the check-to-wait window of the loop thread
     let mut window = false;
     let sig_sites = [Site::SIG_STOP_PRE as u32, Site::SIG_STOP_POST as u32, Site::SIG_WAKE_PRE as u32, Site::SIG_WAKE_POST as u32, Site::BO_WAKE_PRE as u32, Site::BO_WAKE_MID as u32, Site::BO_WAKE_POST as u32];
